@@ -1510,6 +1510,8 @@ struct Def {
 struct Cls {
     add: Option<u32>,
     lt: Option<u32>,
+    /// `@display: || f<k>(self)`: a script function that may raise
+    disp: Option<u32>,
 }
 
 #[derive(Clone, Debug, PartialEq)]
@@ -1643,7 +1645,7 @@ fn opt_sx(x: &Option<u32>) -> String {
 
 impl Prog {
     fn sexp(&self) -> String {
-        let cls: Vec<String> = self.classes.iter().map(|c| format!("(cls {} {})", opt_sx(&c.add), opt_sx(&c.lt))).collect();
+        let cls: Vec<String> = self.classes.iter().map(|c| format!("(cls {} {} {})", opt_sx(&c.add), opt_sx(&c.lt), opt_sx(&c.disp))).collect();
         let defs: Vec<String> = self
             .defs
             .iter()
@@ -1874,7 +1876,7 @@ impl Prog {
         let mut classes = vec![];
         for c in cs {
             let (_, ca) = c.head()?;
-            classes.push(Cls { add: parse_opt(&ca[0])?, lt: parse_opt(&ca[1])? });
+            classes.push(Cls { add: parse_opt(&ca[0])?, lt: parse_opt(&ca[1])?, disp: match ca.get(2) { Some(d) => parse_opt(d)?, None => None } });
         }
         let mut defs = vec![];
         for d in ds {
@@ -2376,13 +2378,16 @@ fn collect_tries(e: &E, f: &mut dyn FnMut(&E)) {
 
 impl Prog {
     fn class_has_ops(&self, c: usize) -> bool {
-        self.classes[c].add.is_some() || self.classes[c].lt.is_some()
+        self.classes[c].add.is_some() || self.classes[c].lt.is_some() || self.classes[c].disp.is_some()
     }
 
     fn render_class(&self, r: &mut Renderer, c: usize) {
         r.line(0, &format!("mk{}_ = ||", c));
         r.line(1, &format!("@type: 'K{}'", c));
-        r.line(1, &format!("@display: || 'k{}'", c));
+        match self.classes[c].disp {
+            Some(f) => r.line(1, &format!("@display: || f{}(self)", f)),
+            None => r.line(1, &format!("@display: || 'k{}'", c)),
+        }
         if let Some(f) = self.classes[c].add {
             r.line(1, &format!("@+: |o| f{}(self, o)", f));
         }
@@ -2814,6 +2819,11 @@ impl Prog {
             }
         }
         for c in &self.classes {
+            if let Some(f) = c.disp {
+                if f as usize >= self.defs.len() || self.defs[f as usize].is_gen || self.defs[f as usize].nparams != 1 {
+                    return Some("envelope:display function");
+                }
+            }
             for f in [c.add, c.lt].into_iter().flatten() {
                 if f as usize >= self.defs.len() || self.defs[f as usize].is_gen || self.defs[f as usize].nparams != 2 {
                     return Some("envelope:operator function");
@@ -2866,6 +2876,9 @@ impl Prog {
         }
         if self.classes.iter().any(|c| c.add.is_some() || c.lt.is_some()) {
             f.kinds.insert("overloaded-operators");
+        }
+        if self.classes.iter().any(|c| c.disp.is_some()) {
+            f.kinds.insert("script-@display-function");
         }
         f
     }
@@ -3025,6 +3038,7 @@ enum Role {
     OpAny,   // (self, other) for @+ : returns an int
     OpBool,  // (self, other) for @< : returns Bool (sometimes not: planted fault for >=)
     TakesObj, // 1 parameter holding an object with operators
+    Disp,     // `@display` function: 1 parameter (self), returns a string
     Gen,
 }
 
@@ -3042,6 +3056,7 @@ struct Frame {
     ign: u32, // catch variable that nothing reads (rendered `_`)
     pk: u32,  // first of three locals bound by map patterns
     objs: Vec<u32>, // main only: locals holding objects with operators
+    dvars: Vec<u32>, // main only: [object, object, list] of the class with a `@display` function
     n: u32,
     is_main: bool,
     role: Role,
@@ -3053,6 +3068,7 @@ impl Frame {
         let (int_params, obj_param) = match role {
             Role::OpAny | Role::OpBool => (vec![], Some(0)),
             Role::TakesObj => (vec![], Some(0)),
+            Role::Disp => (vec![], None),
             _ => ((0..nparams).collect(), None),
         };
         Frame {
@@ -3067,6 +3083,7 @@ impl Frame {
             ign: base + 6,
             pk: base + 7,
             objs: (0..n_objs).map(|i| base + 10 + i).collect(),
+            dvars: vec![],
             n: base + 10 + n_objs,
             is_main: false,
             role,
@@ -3561,6 +3578,16 @@ impl<'a> G<'a> {
             }
             return self.safe_stmt(fr);
         }
+        if fr.is_main && !fr.dvars.is_empty() && self.rng.chance(1, 6) {
+            // print / interpolate an object with a script `@display`, alone or inside containers
+            let t = self.next_tag();
+            let v = *self.rng.pick(&fr.dvars);
+            return match self.rng.below(3) {
+                0 => E::Emit(t, Some(Box::new(E::Var(v)))),
+                1 => E::EmitI(t, vec![E::Var(v), self.int_atom(fr)]),
+                _ => E::EmitI(t, vec![self.int_expr(fr, cx, 1), E::MkList(vec![E::Var(fr.dvars[0]), E::Var(fr.dvars[2])])]),
+            };
+        }
         let w_try = if cx.depth > 0 && cx.try_depth < 3 { 5 } else { 0 };
         let w_nest = if cx.depth > 0 { 2 } else { 0 };
         let w_ctl = if cx.in_loop_ok || cx.ret_ok { 1 } else { 0 };
@@ -3736,6 +3763,7 @@ fn gen_prog(rng: &mut Rng) -> Prog {
                 Role::General,
                 Role::General,
                 Role::General,
+                Role::Disp,
                 Role::Pred,
                 Role::Key,
                 Role::Fold,
@@ -3745,7 +3773,7 @@ fn gen_prog(rng: &mut Rng) -> Prog {
         };
         let nparams = match role {
             Role::General => g.rng.weighted(&[2, 4, 1]) as u32,
-            Role::Pred | Role::Key | Role::TakesObj => 1,
+            Role::Pred | Role::Key | Role::TakesObj | Role::Disp => 1,
             Role::Fold | Role::OpAny | Role::OpBool => 2,
             Role::Gen => g.rng.weighted(&[2, 1]) as u32,
         };
@@ -3754,7 +3782,7 @@ fn gen_prog(rng: &mut Rng) -> Prog {
             depth: 2,
             try_depth: 0,
             in_loop_ok: false,
-            ret_ok: role != Role::Gen,
+            ret_ok: role != Role::Gen && role != Role::Disp,
             args_fault_ok: true,
             no_escape: false,
             avail: i,
@@ -3804,6 +3832,7 @@ fn gen_prog(rng: &mut Rng) -> Prog {
                     Box::new(E::Var(0)),
                 ),
                 Role::Fold => E::Bin(Op::Add, Box::new(E::Var(0)), Box::new(E::Var(1))),
+                Role::Disp => E::Lit(Lit::Str(g.rng.range(0, 5) as u32)),
                 _ => g.int_safe(&fr),
             };
             body.push(tail);
@@ -3825,11 +3854,21 @@ fn gen_prog(rng: &mut Rng) -> Prog {
         }
     }
     if let Some(c) = g.op_classes.first().copied() {
-        classes[c as usize] = Cls { add: op_add, lt: op_lt };
+        classes[c as usize] = Cls { add: op_add, lt: op_lt, disp: None };
     }
     let n_objs = if g.op_classes.is_empty() { 0 } else { 1 + g.rng.below(2) as u32 };
     let mut fr = Frame::new(0, Role::General, n_objs);
     fr.is_main = true;
+    // a class whose `@display` is a script function (objects live in main, shown alone and inside
+    // nested lists by print / interpolation)
+    let disp_def = (0..defs.len()).find(|i| g.infos[*i].role == Role::Disp);
+    let mut disp_class = None;
+    if let Some(d) = disp_def {
+        disp_class = Some(classes.len() as u32);
+        classes.push(Cls { add: None, lt: None, disp: Some(d as u32) });
+        fr.dvars = vec![fr.n, fr.n + 1, fr.n + 2];
+        fr.n += 3;
+    }
     let cx = Cx {
         depth: 3,
         try_depth: 0,
@@ -3840,6 +3879,25 @@ fn gen_prog(rng: &mut Rng) -> Prog {
         avail: defs.len() as u32,
     };
     let mut body = g.prologue(&fr);
+    if let Some(dc) = disp_class {
+        body.push(E::Assign(fr.dvars[0], Box::new(E::MkObj(dc))));
+        body.push(E::Assign(fr.dvars[1], Box::new(E::MkObj(dc))));
+        // the object 0–3 containers deep
+        let depth = g.rng.below(4);
+        let mut inner = E::Var(fr.dvars[1]);
+        for _ in 0..depth {
+            let mut items = vec![inner];
+            if g.rng.chance(1, 2) {
+                items.insert(0, E::Lit(Lit::Int(g.rng.range(0, 9))));
+            }
+            if g.rng.chance(1, 2) {
+                items.push(E::Lit(Lit::Str(g.rng.range(0, 3) as u32)));
+            }
+            inner = E::MkList(items);
+        }
+        let top = if depth == 0 { E::MkList(vec![E::Lit(Lit::Int(1)), inner]) } else { inner };
+        body.push(E::Assign(fr.dvars[2], Box::new(top)));
+    }
     if let E::Seq(es) = g.block(&fr, cx, 2, 6, None) {
         body.extend(es);
     }
